@@ -23,6 +23,7 @@ import (
 	"strings"
 	"time"
 
+	"github.com/ProtonMail/gluon/db"
 	"github.com/ProtonMail/gluon/rfc822"
 
 	"verifharness/common"
@@ -256,14 +257,28 @@ func sectionRequests(tree *mimegen.Node, stored []byte, idAt, shift int) []secRe
 		}
 	}
 	if tree.IsMsg() && tree.Embedded != nil {
-		// the message itself is of type message/rfc822: its part numbers are those of the message it embeds
-		// (HEADER / TEXT without part number stay those of the message itself)
-		rec(tree.Embedded, nil)
+		e := tree.Embedded
+		if e.IsMulti() {
+			// the message itself is of type message/rfc822 and embeds a multipart: the part numbers are those of the
+			// embedded multipart (consistent with the structure the server reports, known finding C12-rfc822-multipart-structure)
+			rec(e, nil)
+		} else {
+			// ... embeds a single part: the message has part 1, its own body (what BODYSTRUCTURE describes); below it the
+			// numbering is that of the embedded message (C13-fix-5)
+			p := []int{1}
+			add(p, "", sl(tree.BStart, tree.End), "SpBody")
+			add(p, "MIME", rng{hdrStart, pos(tree.BStart)}, "SpMime")
+			add(p, "HEADER", sl(e.HStart, e.BStart), "SpHeader")
+			add(p, "TEXT", sl(e.BStart, e.End), "SpText")
+			rec(e, p)
+		}
 	} else {
 		rec(tree, nil)
 	}
 	return out
 }
+
+var reAtomName = regexp.MustCompile(`^[A-Za-z0-9_.+-]+$`)
 
 var reIDLine = regexp.MustCompile(`^X-Pm-Gluon-Id: ([0-9a-fA-F-]{36})\r\n`)
 
@@ -493,7 +508,7 @@ func run(ctx *common.Ctx) error {
 		ascii := mi%2 == 0
 		big := mi >= nMsgs
 		prefix := rng.Chance(0.35)
-		g := &mimegen.Gen{Rng: rng, MaxBody: 80, ASCII: ascii, NoTopMsg: mi%4 != 3, TopMsg: mi%8 == 7, NoMsgInMsg: true, MsgChainLeaf: true, Bare: true, NoClose: !prefix, Prefix: prefix, EmptyFields: true}
+		g := &mimegen.Gen{Rng: rng, MaxBody: 80, ASCII: ascii, NoTopMsg: mi%4 != 3, TopMsg: mi%8 == 7, NoMsgInMsg: true, MsgChainLeaf: true, Bare: true, NoClose: true, Prefix: prefix, EmptyFields: true, WideNames: true}
 		mix := rng.Chance(0.4)
 		var tree *mimegen.Node
 		if big {
@@ -510,6 +525,11 @@ func run(ctx *common.Ctx) error {
 			}
 		}
 		layout := &mimegen.Layout{Rng: rng, MixEOL: mix, LF: !mix && rng.Chance(0.4), Fold: rng.Chance(0.5), LowerHN: rng.Chance(0.3)}
+		if corpus := mimegen.CorpusTrees(); mi < len(corpus) && !big {
+			// minimised inputs of fixed defects run first, in their plain rendering
+			tree, layout = corpus[mi], &mimegen.Layout{Rng: common.NewRng(1)}
+			res.Count("corpus")
+		}
 		msg := mimegen.Render(tree, layout)
 		if replayCase != nil {
 			tree, msg = replayCase.Tree, replayCase.Msg
@@ -682,7 +702,8 @@ func run(ctx *common.Ctx) error {
 			for k := 0; k < 2; k++ {
 				var fields []string
 				for _, n := range names {
-					if rng.Chance(0.4) {
+					// names with specials stay in the header (and must come back through FIELDS.NOT) but are not requested
+					if rng.Chance(0.4) && reAtomName.MatchString(n) {
 						f := n
 						if rng.Chance(0.5) {
 							f = strings.ToUpper(n)
@@ -842,6 +863,20 @@ func run(ctx *common.Ctx) error {
 			if err := sizeScenario(ctx); err != nil {
 				return err
 			}
+		}
+		// one MessagesCreated update with more messages than the database / store chunk size
+		bulk := []int{db.ChunkLimit + 3}
+		if ctx.Tier == "thorough" {
+			bulk = []int{db.ChunkLimit - 1, db.ChunkLimit, db.ChunkLimit + 1, 2*db.ChunkLimit + 1}
+		}
+		for _, n := range bulk {
+			if err := bulkScenario(ctx, n); err != nil {
+				return err
+			}
+		}
+		// literals without header fields through the connector and the Drafts path
+		if err := headerlessScenario(ctx, &lines, nextID); err != nil {
+			return err
 		}
 	}
 
